@@ -16,6 +16,7 @@ open Proto SigGen
       flux   <g> <j> <fluxmodel values of the events of dataset j>
       table                                          -> ds:ev:shg:src,… <normalised weights> <weight sum> | ERR
       vrange <ds> <lo> <hi> <value of the field per table row>   (one line per configured (dataset, field); none = all valid)
+      akw    <requested totals of the calls sharing one sig_kwargs dictionary> -> mean handed to the generator per call (- = not called)
       agg    <counts> <number of per-dataset generators>  -> n;key=count,… | ERR   (aggregation after the fix)
       gen    <right01> <n> <us>                      -> n;used;ds=row,row,…|ds=… | ERR
       mu2flux <mu> <Phi0 per source> <unit per source> -> per-source fluxes;total
@@ -80,6 +81,8 @@ def step (s : St) (line : String) : St × String :=
         ({ s with tab := tab, refN := refN, cdf := normCdf wn },
          s!"{fListD fCand (tab.map (·.1))} {fListD fF wn} {fF refN}")
   | ["vrange", d, lo, hi, vs] => ({ s with vr := s.vr ++ [(pN d, pF lo, pF hi, pList pF vs)] }, "ok")
+  | ["akw", rs] =>
+      (s, fListD (fun o => match o with | some (m : Int) => toString m | none => "x") (kwHistory kwCall none (pList pI rs)))
   | ["agg", cs, k] =>
       let gens : List DsGen := (List.range (pN k)).map fun j c =>
         if c < 0 then none else some (c.toNat, [(j, c.toNat)])
